@@ -730,6 +730,18 @@ cannot mix dates and times as arguments");
 		dt_make_sandwich(&clo.lst, clo.lst.d.typ, clo.fst.t.typ);
 	}
 
+	/* a bound spelt 24:00:00 is the midnight that follows, and inclusive */
+	if (dt_sandwich_p(clo.lst)) {
+		clo.lst = dt_milfup(clo.lst);
+	} else if (dt_sandwich_only_t_p(clo.lst) && clo.lst.t.hms.h == 24U) {
+		clo.lst.t.hms.h = 0U;
+	}
+	if (dt_sandwich_p(clo.fst)) {
+		clo.fst = dt_milfup(clo.fst);
+	} else if (dt_sandwich_only_t_p(clo.fst) && clo.fst.t.hms.h == 24U) {
+		clo.fst.t.hms.h = 0U;
+	}
+
 #define _DAISY	((dt_dttyp_t)DT_DAISY)
 	tgttyp = clo.fst.typ;
 	if ((dt_sandwich_p(clo.fst) || dt_sandwich_only_d_p(clo.fst)) &&
